@@ -130,6 +130,7 @@ func main() {
 		fmt.Sscan(f[6], &at)
 		var b bytes.Buffer
 		res := "OK:"
+		traceLog = nil
 		func() {
 			defer func() {
 				if r := recover(); r != nil {
@@ -146,7 +147,11 @@ func main() {
 				}
 			}
 		}()
-		fmt.Fprintln(out, hex.EncodeToString([]byte(res+b.String())))
+		tr := ""
+		if len(traceLog) > 0 {
+			tr = "#TRACE:" + strings.Join(traceLog, ",") + "#"
+		}
+		fmt.Fprintln(out, hex.EncodeToString([]byte(res+b.String()+tr)))
 	}
 }
 `
